@@ -50,24 +50,83 @@ theorem C06_signed_input_unique (hh hh' c c' : Bytes) (i j : Nat) (f f' : Bool)
     hh = hh' ∧ i = j ∧ f = f' ∧ c = c' :=
   attachedInput_inj_v2 hh hh' c c' i j f f' h1 h2 hi hj h
 
+/-- **What `AuthSig.BreakIn P s H items` is** (definitional unfolding).  It is
+    ANCHORED to the verifier state `s` and the packets `items` of the run
+    (`Reaches`: see `C02_reaches_def` — every earlier item was a packet accepted
+    at its position and not final):
+
+    * *signature forgery in this run*: the run reaches its `i`-th packet `b` and
+      accepts it as packet number `i + 1`; `b.sig` verifies, under the looked-up
+      key, on domain ‖ hash(`recvHashed s b i`), where `recvHashed s b i` =
+      header hash ‖ be64 `i` ‖ [final byte] ‖ `b.chunk` — an input the owner of
+      that key never signed (no chunk of a message in `H`); or
+    * *hash collision in this run*: for such a reached and accepted packet,
+      `recvHashed s b i` and the string `honestHashed …` the honest signer hashed
+      for chunk `k` of a message of `H` are DIFFERENT strings with the SAME hash. -/
+theorem C06_break_def (P : Prims) (s : Sign.State) (H : List AuthSig.Event)
+    (items : List (Option SigBlock)) :
+    AuthSig.BreakIn P s H items ↔
+      (∃ (i : Nat) (b : SigBlock),
+        Reaches (Ver.accept P s) (Sign.blockFinal s.version) items i b ∧
+        Ver.accept P s b (i + 1) = some b.chunk ∧
+        P.verify s.publicKey
+          (Gen.c_sp_signatureAttachedString ++ P.hash (AuthSig.recvHashed s b i)) b.sig = true ∧
+        ¬ ∃ e ∈ H, ∃ k c' f', e.plan[k]? = some (c', f') ∧
+            Gen.c_sp_signatureAttachedString ++ P.hash (AuthSig.recvHashed s b i) =
+              Gen.c_sp_signatureAttachedString ++ P.hash (AuthSig.honestHashed s.version e k c' f')) ∨
+      (∃ (i : Nat) (b : SigBlock),
+        Reaches (Ver.accept P s) (Sign.blockFinal s.version) items i b ∧
+        Ver.accept P s b (i + 1) = some b.chunk ∧
+        ∃ e ∈ H, ∃ k c' f', e.plan[k]? = some (c', f') ∧
+          AuthSig.recvHashed s b i ≠ AuthSig.honestHashed s.version e k c' f' ∧
+          P.hash (AuthSig.recvHashed s b i) = P.hash (AuthSig.honestHashed s.version e k c' f')) :=
+  Iff.rfl
+
+/-- the two hashed strings, spelled out (V2; V1 has no final byte) -/
+theorem C06_inputs_def (s : Sign.State) (hv : s.version.major = 2) (b : SigBlock) (i : Nat)
+    (e : AuthSig.Event) (k : Nat) (c : Bytes) (f : Bool) :
+    AuthSig.recvHashed s b i = s.headerHash ++ be64 i ++ finalByte b.final ++ b.chunk ∧
+    AuthSig.honestHashed s.version e k c f = e.headerHash ++ be64 k ++ finalByte f ++ c := by
+  have h21 : ¬ ((2 : Int) = 1) := by decide
+  simp [AuthSig.recvHashed, AuthSig.honestHashed, Sign.blockFinal, hv, h21]
+
 /-- **The reduction** (`H`: all attached messages the owner of the looked-up key
     ever signed): released bytes are the first `m` chunks of ONE of them, with
     this very header hash (which covers mode, version, key and the random nonce)
     — all of it iff the run ends cleanly — or nothing is released and the run
-    fails, or a signature forgery / hash collision is exhibited. -/
+    fails, or `AuthSig.BreakIn P s H items` (see `C06_break_def`): a signature
+    forgery or a hash collision exhibited by a packet THIS run reached and
+    accepted.
+
+    `BreakIn` is not always true: `C06_break_not_trivial`, `C06_tampered_runs_fail`.
+
+    `hlen`: honest header hashes are 64 bytes.  `hplan`, `hv1` are asked ONLY of
+    the messages with this header hash (the history may mix V1 and V2).
+    ASSUMPTION `hone` (explicit hypothesis): at most one of the signer's messages
+    has this header hash — freshness of the 16-byte random header nonce plus
+    collision resistance of the header hash. -/
 theorem C06_authentic_or_break (P : Prims) (hP : P.Lawful) (s : Sign.State)
     (hv : s.version.major = 1 ∨ s.version.major = 2) (hhl : s.headerHash.length = 64)
     (H : List AuthSig.Event)
-    (hplan : ∀ e ∈ H, PlanOK e.plan ∧ e.plan.length < 2 ^ 64 ∧ e.headerHash.length = 64)
-    (hv1 : s.version.major = 1 → ∀ e ∈ H, ∀ p ∈ e.plan, (p.1 = [] ↔ p.2 = true))
-    (hone : ∀ e ∈ H, ∀ e' ∈ H, e.headerHash = e'.headerHash → e = e')
+    (hlen : ∀ e ∈ H, e.headerHash.length = 64)
+    (hplan : ∀ e ∈ H, e.headerHash = s.headerHash → PlanOK e.plan ∧ e.plan.length < 2 ^ 64)
+    (hv1 : s.version.major = 1 → ∀ e ∈ H, e.headerHash = s.headerHash → ∀ p ∈ e.plan, (p.1 = [] ↔ p.2 = true))
+    (hone : ∀ e ∈ H, ∀ e' ∈ H, e.headerHash = s.headerHash → e'.headerHash = s.headerHash → e = e')
     (items : List (Option SigBlock)) (hitems : items.length < 2 ^ 64) (tail : Tail) :
     let r := Sign.run P s items tail 1
     r.bytes = [] ∧ r.err ≠ none ∨
     (∃ e ∈ H, e.headerHash = s.headerHash ∧ ∃ m, m ≤ e.plan.length ∧ r.bytes = planPrefix e.plan m ∧
         (r.err = none → m = e.plan.length)) ∨
-    AuthSig.Break P s H :=
-  AuthSig.authentic_or_break P hP s hv hhl H hplan hv1 hone items hitems tail
+    AuthSig.BreakIn P s H items :=
+  AuthSig.authentic_or_break P hP s hv hhl H hlen hplan hv1 hone items hitems tail
+
+/-- a packet that figures in a break is a packet OF THIS RUN, at its index -/
+theorem C06_break_in_items (P : Prims) (s : Sign.State) (H : List AuthSig.Event)
+    (items : List (Option SigBlock)) (h : AuthSig.BreakIn P s H items) :
+    ∃ i b, items[i]? = some (some b) ∧ some b ∈ items ∧ i < items.length ∧
+      Ver.accept P s b (i + 1) = some b.chunk := by
+  rcases h with ⟨i, b, hr, ha, _⟩ | ⟨i, b, hr, ha, _⟩ <;>
+    exact ⟨i, b, hr.1, hr.mem, hr.lt, ha⟩
 
 /-- a detached signature (or any other mode) presented as attached is refused at
     the header: verification releases something only for attached-mode headers -/
@@ -83,6 +142,38 @@ theorem C06_other_modes_refused (P : Prims) (valid : Validator) (kr : Keyring) (
     · have h3 : (h.typ != mtAttached) = true := by simpa using ht
       simp [h1, h2, h3]
 
+/-! ## non-vacuity, and non-triviality of the reduction's third disjunct -/
 example : Toy.prims.Lawful := Toy.lawful
+example : Demo.prims.Lawful := Demo.lawful
+
+/-- the honest two-packet run (V2, chunks "A", "B") of the demonstration
+    primitives ends cleanly and releases the message … -/
+theorem C06_honest_run :
+    Sign.run Demo.prims Demo.Sig.s [some Demo.Sig.b0, some Demo.Sig.b1] .eof 1 = ⟨[65, 66], none⟩ :=
+  Demo.Sig.honest_run
+
+/-- … and for it the anchored break is FALSE: the third disjunct of
+    `C06_authentic_or_break` is not always true. -/
+theorem C06_break_not_trivial :
+    ¬ AuthSig.BreakIn Demo.prims Demo.Sig.s [Demo.Sig.e0] [some Demo.Sig.b0, some Demo.Sig.b1] :=
+  Demo.Sig.honest_not_break
+
+/-- tampered runs — packets swapped; a chunk changed — land in the FIRST disjunct -/
+theorem C06_tampered_runs_fail :
+    (let r := Sign.run Demo.prims Demo.Sig.s [some Demo.Sig.b1, some Demo.Sig.b0] .eof 1
+     r.bytes = [] ∧ r.err ≠ none) ∧
+    (let r := Sign.run Demo.prims Demo.Sig.s
+        [some { Demo.Sig.b0 with chunk := [67] }, some Demo.Sig.b1] .eof 1
+     r.bytes = [] ∧ r.err ≠ none) := by
+  refine ⟨?_, ?_⟩
+  · show (Sign.run Demo.prims Demo.Sig.s [some Demo.Sig.b1, some Demo.Sig.b0] .eof 1).bytes = [] ∧ _
+    rw [Demo.Sig.swapped_run]; exact ⟨rfl, by simp⟩
+  · show (Sign.run Demo.prims Demo.Sig.s _ .eof 1).bytes = [] ∧ _
+    rw [Demo.Sig.altered_run]; exact ⟨rfl, by simp⟩
+
+/-- a truncated run lands in the SECOND disjunct with `m = 1 < 2` and an error -/
+theorem C06_truncated_run :
+    Sign.run Demo.prims Demo.Sig.s [some Demo.Sig.b0] .eof 1 = ⟨[65], some .unexpectedEOF⟩ :=
+  Demo.Sig.truncated_run
 
 end Saltpack.Props.C06
